@@ -66,3 +66,20 @@ Definition samp_pixel (mn mx : Q) (etas : list Q) (c : curve) : list Z :=
   | None => map (fun _ => Z.of_nat (length c)) etas
   | Some m => map (samp_amb (norm mn mx m) (ncurve mn mx c)) etas
   end.
+
+(* ---- whole kernels (prelude + loop nest) on a volume of the model *)
+
+(* every curve has nd entries (the first pixel too, from which cv.shape is read) *)
+Definition vol_shape (nd : nat) (v : volume) : Prop :=
+  length (hd [] (hd [] v)) = nd /\ forall row c, In row v -> In c row -> length c = nd.
+
+(* Risk.confidence_prediction: compute_risk is handed the sampled ambiguity returned by
+   compute_ambiguity_and_sampled_ambiguity on the same (oriented) cost volume *)
+Definition grisk_map (v : volume) (etas : list Q) : option (list (list (xf * xf))) :=
+  match G.compute_ambiguity_and_sampled_ambiguity (xvolume v) (xetas etas) with
+  | Some M => G.compute_risk (xvolume v) (map (map snd) M) (xetas etas)
+  | None => None
+  end.
+
+Definition xpair (p : oq * oq) : xf * xf := (of_oq (fst p), of_oq (snd p)).
+Definition xeq2 (a b : xf * xf) : Prop := xeq (fst a) (fst b) /\ xeq (snd a) (snd b).
